@@ -254,6 +254,17 @@ def genall_c09(info):
     gen_C09(info)
 
 
+def gen_C10(info):
+    """read-set patterns of every regenerated line x regenerated catalogue -> Gen/C10_<year>_<k>.lean"""
+    if _gen_tool(info, 'gen_c10.py', 'c10'):
+        _load_gen_json(info, 'c10')
+    info['extra_targets'] += ['HabuVerif.Gen.C10_2021', 'HabuVerif.Gen.C10_2022', 'HabuVerif.Gen.C10_2023']
+
+
+def genall_c10(info):
+    gen_C10(info)
+
+
 def generate_all():
     """used by setup: everything that `lake build` of the whole library needs"""
     info = {'extra_targets': [], 'failed': []}
